@@ -7,13 +7,13 @@ TEXT = {
  "C01": {"level": "Bounded model checking of the real Muxer: K real writes with symbolic timestamps / key-frame placement / parameter changes; every advertised segment and part is fetched through the real handlers, decoded and compared with a ghost list of accepted units. " + B,
          "note": "mediacommon boundary stubbed (its Marshal/Unmarshal trusted to be inverse); playlist text layer bypassed here (C14/C15); integer summaries of the two float kernels proven by C03's lemmas"},
  "C02": {"level": "Same bounded runs: the specification cut rule (random access and (min duration reached or pending parameter change)) is evaluated on the symbolic inputs and compared with the observed rotations of every stream; first unit of each segment; init contents. " + B,
-         "note": "as C01; audio-only MPEG-TS 100-write rule only through the shared run (K small) — deeper history outside the bound"},
+         "note": "as C01; the audio-only MPEG-TS 100-write rule is checked by a step harness from an arbitrary write count (state correspondence: counter = number of writes into the open segment)"},
  "C03": {"level": "Playlist durations, target durations and date-times of every served playlist compared with the ghost segments in the bounded runs, plus arithmetic lemmas: timestampToDuration within 1 ns of exact (Int), round/ceil float kernels equal to their integer summaries (bit-vector + IEEE-754, cvc5). " + B,
          "note": "float lemmas stated over the stdlib expression on pre-split operands; durations compared to 10 us"},
  "C04": {"level": "Relation between consecutive served playlists of every stream in the bounded runs (MSN monotone and stable, window size, URI numbers, part numbering, preload hint, equal MSNs across streams). " + B,
-         "note": "histories up to K writes from the real initial state (window slides at most K-3 times)"},
+         "note": "histories up to K writes from the real initial state (the key-frame-only runs slide the window 3-6 times); a request racing a rotation is covered by the conc.view runs (3 preemptions)"},
  "C05": {"level": "Every URI of every served playlist is fetched through the real Muxer.Handle at first and later listings (status, content type, immutability, segment = concatenation of parts, fragment sequence numbers); expired and unknown URIs must not be served. " + B,
-         "note": "RAM storage in the shared runs; Directory storage through the in-harness file system in C07/C17"},
+         "note": "RAM storage in the symbolic-timestamp runs; Directory storage (in-harness file system) in the slide and Low-Latency disk runs"},
  "C06": {"level": "Lemma: real hasPart vs the published(M,P) predicate on arbitrary stream states; request threads with symbolic _HLS_msn/_HLS_part text inside a real Low-Latency run (blocked-only-while-unpublished evaluated at quiescence after every write); preload hint; delta update vs full playlist. " + B,
          "note": "cooperative scheduling with the writer's real writes as interference; one waiter"},
  "C07": {"level": "Pending requests of four kinds + real Close with symbolic preemption at its synchronisation points; afterwards all requests completed (non-200), lock free, later requests return, in-harness Directory empty. " + B,
@@ -38,8 +38,8 @@ TEXT = {
          "note": "RESOLUTION/FRAME-RATE against the stubbed SPS; RFC 6381 strings of H264/AAC/Opus only"},
  "C17": {"level": "Differential harness: RAM backend vs disk backend (in-harness file system) vs byte-slice model under one symbolic sequence of Write/Seek operations with symbolic bytes and offsets; readers before/after Finalize and after Remove. " + B,
          "note": "small sizes (<= 3 bytes per write, offsets in [-4, 8]); OS replaced by a POSIX-like model"},
- "C18": {"level": "Window size, expired-URI and unknown-URI checks in the bounded muxer runs. " + B,
-         "note": "SegmentMaxSize limit and thousands of rotations not yet covered by a dedicated step harness (bounded runs only)"},
+ "C18": {"level": "Window size, expired-URI, unknown-URI and Directory file-count checks in the bounded muxer runs (incl. key-frame-only runs that slide the window several times and a run with failing init regeneration); SegmentMaxSize rule by a step harness from an arbitrary segment state. " + B,
+         "note": "retention over thousands of rotations is argued from the per-rotation checks, not proven inductively; SegmentMaxSize exactness for MPEG-TS audio/video writes only"},
  "C19": {"level": "Lemma on the real findCompatiblePartDuration with symbolic PartMinDuration for each constant sample duration of the table (all four clauses of the statement), plus a real Low-Latency run with symbolic PartMinDuration checking every served playlist. " + B,
          "note": "sample durations from the table only; video-led run"},
  "C20": {"level": "FIFO/exactly-once step harness and interference harnesses (throttled producer, blocked consumer, cancellation) with symbolic preemption at every synchronisation point; lost wake-ups appear as 'blocked although the predicate holds' at quiescence. " + B,
